@@ -107,6 +107,11 @@ func VerifNewCron() *VerifCron {
 	return &VerifCron{c: c}
 }
 
+// VerifNewCronLive runs createCron and leaves the timer armed (real-time smoke test); Stop it when done.
+func VerifNewCronLive() *VerifCron {
+	return &VerifCron{c: createCron(&verifCronNode{})}
+}
+
 // Cron gives the public interface (AddJob, RemoveJob, EnableJob, DisableJob, Info, JobInfo, Schedule, JobSchedule).
 func (v *VerifCron) Cron() gen.Cron { return v.c }
 
